@@ -234,6 +234,7 @@ fn add_stats(rep: &mut Report, s: &Stats) {
     rep.add("lsm.obsolete-files-lingering-until-next-pass", s.lingering);
     rep.add("lsm.transitions-validated-against-model", s.events_validated);
     rep.add("lsm.states-validated-against-model", s.states_validated);
+    rep.add("lsm.directory-checks-against-retention-model", s.retention_checks);
     rep.add("lsm.entries-dropped-by-compactions", s.entries_dropped);
     let bump = |rep: &mut Report, k: &str, v: u64| {
         let cur = rep.dist.get(k).copied().unwrap_or(0);
@@ -274,7 +275,7 @@ pub fn rule() -> &'static str {
 pub fn run(tier: &str, seed: u64, prop: &str, replay: Option<&str>, corpus_dir: &str, shard: Option<ShardArgs>, drv_path: &str) -> Report {
     install_panic_hook();
     let mut rep = Report::new("lsm", rule());
-    let checks = Checks { drv_path: if drv_path == "none" { None } else { Some(drv_path.to_string()) }, ..Checks::default() };
+    let checks = Checks { drv_path: if drv_path == "none" { None } else { Some(drv_path.to_string()) }, retention_model: prop == "C11", ..Checks::default() };
     let secs = 60;
     if let Some(line) = replay {
         match History::from_line(line) {
